@@ -420,6 +420,8 @@ class SymClient(Client):
             else:
                 ver = min(VER_CAP, ver + 1)
             changed = True
+        elif kind == "loophead" and getattr(self, "unroll_loops", False):
+            pass            # the client decides every loop test: rounds are followed one by one, nothing is forgotten
         elif kind == "loophead":
             # locals assigned inside the loop are loop-carried: one opaque value per loop and name
             body = node
